@@ -71,6 +71,17 @@ def eval_call(eng, e, st):
             vals = [eng.as_iseq(st, eng.ev1(a, st)).t for a in e.args]
             f = {"aes_enc": smt.aes_enc, "aes_dec": smt.aes_dec, "hmac_sha256": smt.hmac256, "sha256": smt.sha256}[fn]
             return [(st, VSeq(f(*vals), "bytes"))]
+        if fn in ("rsa_ok", "rsa_pt", "rsa_k", "keypair") and fn not in st.env:
+            from .values import box as _box
+            vals = [eng.deref(st, eng.ev1(a, st)) for a in e.args]
+            if fn == "rsa_k":
+                return [(st, VInt(smt.rsa_k(_box(vals[0]))))]
+            if fn == "keypair":
+                return [(st, VBool(smt.keypair(_box(vals[0]), _box(vals[1]))))]
+            ct = eng.as_iseq(st, vals[1]).t
+            if fn == "rsa_ok":
+                return [(st, VBool(smt.rsa_ok(_box(vals[0]), ct)))]
+            return [(st, VSeq(smt.rsa_pt(_box(vals[0]), ct), "bytes"))]
         if fn == "fits_bytes" and fn not in st.env:
             n = eng.as_int(st, eng.ev1(e.args[0], st))
             w = eng.as_int(st, eng.ev1(e.args[1], st))
@@ -566,6 +577,28 @@ def method_call(eng, st, recv, name, args, kwargs, node):
         if "aes_calls" in st.env:
             st.env["aes_calls"] = VInt(st.env["aes_calls"].t + 1)
         return [(st, VSeq(f(key.t, iv.t, data.t), "bytes"))]
+    if isinstance(r, VConst) and r.what == "pkcs1cipher":
+        key = r.py[1]
+        if name == "decrypt":
+            ct = eng.as_iseq(st, args[0], node)
+            sentinel = eng.deref(st, args[1])
+            if not isinstance(sentinel, VNone):
+                raise Unsupported("PKCS1 decrypt with a non-None sentinel")
+            eng.implicit_error(st, IS.len(ct.t) == smt.rsa_k(key), "ValueError", node, "rsa-ciphertext-length")
+            pt = eng.named(st, VSeq(smt.rsa_pt(key, ct.t), "bytes"), "rsa_pt")
+            st.assume(is_bytes_fact(pt.t), IS.len(pt.t) <= smt.rsa_k(key) - 11)
+            return [(st, VOpt(z3.Not(smt.rsa_ok(key, ct.t)), pt))]
+        if name == "encrypt":
+            msg = eng.as_iseq(st, args[0], node)
+            eng.implicit_error(st, IS.len(msg.t) <= smt.rsa_k(key) - 11, "ValueError", node, "rsa-plaintext-too-long")
+            rr = fresh("rsa_ct", ISq)
+            pv = fresh("priv", Val)
+            st.assume(IS.len(rr) == smt.rsa_k(key), is_bytes_fact(rr),
+                      z3.ForAll([pv], z3.Implies(smt.keypair(key, pv), z3.And(smt.rsa_ok(pv, rr), smt.rsa_pt(pv, rr) == msg.t,
+                                                                              smt.rsa_k(pv) == smt.rsa_k(key))),
+                                patterns=[smt.keypair(key, pv)]))
+            return [(st, VSeq(rr, "bytes"))]
+        raise Unsupported(f"PKCS1 method {name}")
     if isinstance(r, VConst) and r.what == "hashobj":
         if r.py[0] == "hmac":
             dg = smt.hmac256(r.py[1].t, r.py[2].t)
@@ -1021,6 +1054,9 @@ def make_result(eng, st, rty):
     if isinstance(rty, tuple) and rty[0] == "record":
         from .heapmodel import sym_record
         return sym_record(eng, st, rty[1])
+    if isinstance(rty, str) and rty.startswith("cstruct:"):
+        from .heapmodel import sym_cstruct
+        return sym_cstruct(eng, st, "result", rty), []
     return sym_value("result", rty)
 
 
